@@ -29,6 +29,9 @@ func codeInt(f func() (int, error)) int {
 	})
 	switch res {
 	case "":
+		if v < 0 {
+			return -100 + v // a NEGATIVE RESULT (not an error): kept apart from the codes -1 (error) and -2 (panic)
+		}
 		return v
 	case "error":
 		return -1
